@@ -796,7 +796,12 @@ fn positive(text: &str, derivation: Option<(&Grammar, &DNode, &[(usize, usize)])
                         let mut ns = Vec::new();
                         named_spans(g, d, spans, &mut ns);
                         let inside = |name: &str| ns.iter().find(|n| n.0 == name && n.1 <= *s && *s <= n.2.max(n.1));
-                        if m.contains("positional argument should be put before named") {
+                        let adjacent_strings = terminals_of(text).map(|t| t.windows(2).any(|w| w[0] == "STRING" && w[1] == "STRING")).unwrap_or(false);
+                        if adjacent_strings {
+                            // two string literals that the grammar keeps apart (end of one value, start of the next
+                            // dag argument) are merged by the parser's adjacent-string concatenation
+                            "adjacent-strings-merged".to_string()
+                        } else if m.contains("positional argument should be put before named") {
                             "positional-after-named-argument".to_string()
                         } else if m.contains("identifier in dag init") {
                             "dag-operator-not-identifier".to_string()
